@@ -260,3 +260,71 @@ func init() {
 	os.Unsetenv("SOURCE_DATE_EPOCH")
 	deprecation.Noticer = io.Discard
 }
+
+// cliRebuildSmaller models a rebuild to the same target after the payload
+// shrank: the command line tool first writes a package with a large payload to
+// <target>, then one with a small payload to the same path (by explicit file
+// target, and by conventional name inside a target directory). fn gets, per
+// format, the bytes found at the target after the second build and the bytes
+// of the same second build written to a fresh path.
+func cliRebuildSmaller(run *ev.Run, bin, prop string, fn func(f, how string, atTarget, fresh []byte)) {
+	dir := newWorkDir(strings.ToLower(prop) + "-clirebuild")
+	defer removeWorkDir(dir)
+	big, small := filepath.Join(dir, "big.bin"), filepath.Join(dir, "small.txt")
+	blob := make([]byte, 600<<10)
+	x := uint32(12345)
+	for i := range blob { // incompressible enough for every compressor
+		x = x*1664525 + 1013904223
+		blob[i] = byte(x >> 24)
+	}
+	_ = os.WriteFile(big, blob, 0o644)
+	_ = os.WriteFile(small, []byte("small payload\n"), 0o644)
+	mk := func(src string) string {
+		s := &gen.Spec{Name: "rebuilt", Arch: "amd64", Version: "1.0.0", Maintainer: "R <r@example.com>", Description: "d", MTime: 1500000000}
+		s.RPM.BuildHost = "verif-host"
+		s.Contents = []*gen.Content{{Src: src, Dst: "/opt/rebuilt/payload"}}
+		return s.YAML()
+	}
+	cfgBig, cfgSmall := filepath.Join(dir, "big.yaml"), filepath.Join(dir, "small.yaml")
+	_ = os.WriteFile(cfgBig, []byte(mk(big)), 0o644)
+	_ = os.WriteFile(cfgSmall, []byte(mk(small)), 0o644)
+	ext := map[string]string{"deb": ".deb", "rpm": ".rpm", "apk": ".apk", "ipk": ".ipk", "archlinux": ".pkg.tar.zst"}
+	for _, f := range formats {
+		for _, how := range []string{"file-target", "directory-target"} {
+			run.Case("cli-rebuild-with-smaller-payload|"+f+"|"+how, true)
+			outDir := filepath.Join(dir, f+"-"+how)
+			freshDir := filepath.Join(dir, f+"-"+how+"-fresh")
+			_ = os.MkdirAll(outDir, 0o755)
+			_ = os.MkdirAll(freshDir, 0o755)
+			target, freshTarget := filepath.Join(outDir, "out"+ext[f]), filepath.Join(freshDir, "out"+ext[f])
+			if how == "directory-target" {
+				target, freshTarget = outDir, freshDir
+			}
+			fail := false
+			for _, step := range [][2]string{{cfgBig, target}, {cfgSmall, target}, {cfgSmall, freshTarget}} {
+				so, se, code, err := runCmd(nil, dir, nil, bin, "package", "-f", step[0], "-p", f, "-t", step[1])
+				if err != nil || code != 0 {
+					run.Violate(prop+"/"+f+"/cli-build-failed", map[string]any{"how": how, "output": ev.Short(string(so)+string(se), 300)})
+					fail = true
+					break
+				}
+			}
+			if fail {
+				continue
+			}
+			read := func(d string) []byte {
+				if how == "file-target" {
+					b, _ := os.ReadFile(filepath.Join(d, "out"+ext[f]))
+					return b
+				}
+				es, _ := os.ReadDir(d)
+				if len(es) != 1 {
+					return nil
+				}
+				b, _ := os.ReadFile(filepath.Join(d, es[0].Name()))
+				return b
+			}
+			fn(f, how, read(outDir), read(freshDir))
+		}
+	}
+}
